@@ -324,6 +324,26 @@ def array_attr(np_, a, name):
         return Builtin("all", lambda *x, **k: all_(np_, a))
     if name == "sum":
         def sum_(axis=None, **k):
+            if a.ndim == 2 and axis is not None:
+                # marginal of a 2-D array: element k is the recursive sum of row / column k
+                ax = raw(axis)
+                ax = tuple(ax) if isinstance(ax, (tuple, list)) else (ax,)
+                if len(ax) == 0:
+                    return TArr(a.term, a.shape, a.dtype)
+                if len(ax) != 1 or not isinstance(raw(ax[0]), int):
+                    raise Untranslatable("sum over several axes of a symbolic-extent array")
+                d = raw(ax[0]) % 2
+                kd = kind_of_dtype(a.dtype)
+                if kd == "bool":
+                    raise Untranslatable("sum of bool symbolic-extent array")
+                m = term_of(raw(a.shape[d]), "int")
+                ctx = np_.I.ctx
+                j = z3.Int(ctx.fresh_name("j"))
+
+                def marginal(kk):
+                    line = z3.Lambda([j], z3.Select(a.term, j, kk) if d == 0 else z3.Select(a.term, kk, j))
+                    return sum_fn(kd)(line, z3.IntVal(0), m)
+                return from_fn(np_, (a.shape[1 - d],), a.dtype, marginal)
             if a.ndim != 1:
                 raise Untranslatable("sum of n-d symbolic-extent array")
             kd = kind_of_dtype(a.dtype)
